@@ -153,9 +153,13 @@ class Gen:
         if k <= 6:
             return ("const", "int", r.choice(["0", "1", "42", "0x1F", "017", "10u", "7UL", "3ll", "0b101", "9ULL"]))
         if k == 7:
-            return ("const", "float", r.choice(["1.5", ".5", "2.", "1e3", "1.5f", "2.5L", "0x1.8p3", "3e-2F"]))
+            return ("const", "float", r.choice(["1.5", ".5", "2.", "1e3", "1.5f", "2.5L", "0x1.8p3", "3e-2F", "0x1p-3", "0xA.8p+2f", "0X.4P1L", "09.5", "1.E+2"]))
         if k == 8:
             return ("const", "char", r.choice(["'a'", "'\\n'", "'\\''", "L'x'", "'\\x41'", "'\\0'", "u'z'"]))
+        if r.random() < 0.15:
+            return ("strcat", r.sample(['"s"', '"a b"', '""', '"x\\n"'], r.randint(2, 3)))
+        if r.random() < 0.1:
+            return ("offsetof", (("struct", "struct", "S"), [], []), r.choice([["f"], ["f", "g"], ["f", 2], ["arr", 1, "g"]]))
         return ("const", "string", r.choice(['"s"', '"a b"', '"q\\"uote"', '"\\\\"', 'L"w"', '""', 'u8"u"']))
 
     def initlist(self, depth):
@@ -186,7 +190,7 @@ class Gen:
             return 14
         if t in ("un", "pre", "sizeof_e", "sizeof_t", "alignof"):
             return 15
-        if t in ("post", "call", "index", "member", "complit"):
+        if t in ("post", "call", "index", "member", "complit", "offsetof"):
             return 16
         return 17
 
@@ -216,6 +220,33 @@ class Gen:
             i = tk.add(e[2])
             ty = {"int": int_type(e[2]), "float": float_type(e[2]), "char": "char", "string": "string"}[e[1]]
             return N("Constant", [S(ty), S(e[2])], i)
+        if t == "strcat":
+            i = tk.add(e[1][0])
+            val = e[1][0]
+            for s2 in e[1][1:]:
+                tk.add(s2)
+                val = val[:-1] + s2[1:]
+            return N("Constant", [S("string"), S(val)], i)
+        if t == "offsetof":
+            i = tk.add("offsetof")
+            tk.add("(")
+            ty = self.emit_typename(e[1], tk)
+            tk.add(",")
+            node = None
+            for j, part in enumerate(e[2]):
+                if isinstance(part, str):
+                    if j:
+                        tk.add(".")
+                    pi = tk.add(part)
+                    idn = N("ID", [S(part)], pi)
+                    node = idn if node is None else N("StructRef", [node, S("."), idn])
+                else:
+                    tk.add("[")
+                    ci = tk.add(str(part))
+                    tk.add("]")
+                    node = N("ArrayRef", [node, N("Constant", [S("int"), S(str(part))], ci)])
+            tk.add(")")
+            return N("FuncCall", [N("ID", [S("offsetof")], i), N("ExprList", [L([ty, node])])], i)
         if t == "bin":
             lv = BINOPS[e[1]]
             l = E(e[2], lv)
@@ -359,7 +390,7 @@ class Gen:
                 if out and out[-1][0] == "fun":
                     out.append(("ptr", []))
                     continue
-                form = r.randint(0, 5) if in_param and not out else r.randint(0, 1)
+                form = r.randint(0, 6) if in_param and not out else r.randint(0, 1)
                 if form == 0:
                     out.append(("arr", "empty", None, []) if not out else ("arr", "expr", ("const", "int", str(r.randint(1, 9))), []))
                 elif form == 1:
@@ -370,6 +401,8 @@ class Gen:
                     out.append(("arr", "static_first", ("id", "n"), r.sample(["const", "restrict"], r.randint(0, 1))))
                 elif form == 4:
                     out.append(("arr", "static_last", ("id", "n"), [r.choice(["const", "volatile"])]))
+                elif form == 6:
+                    out.append(("arr", "quals_star", None, r.sample(["const", "volatile", "restrict"], r.randint(1, 2))))
                 else:
                     out.append(("arr", "quals", ("id", "n") if r.random() < 0.5 else None, [r.choice(["const", "restrict"])]))
             else:
@@ -482,6 +515,12 @@ class Gen:
         elif form == "star":
             i = tk.add("*")
             dim = N("ID", [S("*")], i)
+        elif form == "quals_star":
+            for q in quals:
+                tk.add(q)
+            i = tk.add("*")
+            dim = N("ID", [S("*")], i)
+            dq = quals
         elif form == "static_first":
             tk.add("static")
             for q in quals:
@@ -638,16 +677,54 @@ class Gen:
                 else:
                     init = self.expr(2, False)
             decls.append((ders, name, init))
-        return ("decl", storage, quals, base, decls)
+        # specifier variety (C99 6.7: specifiers may come in any order)
+        extra = {"funcspec": [], "post_quals": [], "align": None, "perm": r.random()}
+        allfun = all(d[0] and d[0][0][0] == "fun" for d in decls)
+        if not is_typedef:
+            if allfun and r.random() < 0.3:
+                extra["funcspec"] = r.choice([["inline"], ["_Noreturn"], ["inline", "_Noreturn"], ["_Noreturn", "inline"]])
+            if not allfun and r.random() < 0.1 and (file_scope or storage in (["static"], ["extern"])) and storage in ([], ["static"], ["extern"]):
+                storage = storage + ["_Thread_local"]
+            if not allfun and r.random() < 0.1 and "register" not in storage:
+                extra["align"] = ("expr", ("const", "int", r.choice(["8", "16"]))) if r.random() < 0.6 else ("type", (("names", ["double"]), [], []))
+        if r.random() < 0.15:
+            quals = quals + [q for q in r.sample(["const", "volatile", "_Atomic"], r.randint(1, 2)) if q not in quals]
+        if quals and r.random() < 0.3:
+            # `_Atomic (` would be the type-specifier form (C11 6.7.2.4p4): keep _Atomic among the prefix specifiers
+            movable = [q for q in quals if q != "_Atomic"]
+            if movable:
+                k = r.randint(1, len(movable))
+                extra["post_quals"] = movable[k - 1:]
+                quals = [q for q in quals if q not in extra["post_quals"]]
+        return ("decl", storage, quals, base, decls, extra)
 
     def emit_declaration(self, d, tk, register=True):
-        _, storage, quals, base, decls = d
-        # specifier order: storage and qualifiers before the type specifiers (any order is valid C; this one is fixed)
-        for s in storage:
-            tk.add(s)
-        for q in quals:
-            tk.add(q)
+        _, storage, quals, base, decls = d[:5]
+        extra = d[5] if len(d) > 5 else {"funcspec": [], "post_quals": [], "align": None, "perm": 0.0}
+        # prefix specifiers in a pseudo-random order fixed by extra["perm"]
+        pre = [("st", s) for s in storage] + [("q", q) for q in quals] + [("fs", f) for f in extra["funcspec"]]
+        if extra["align"] is not None:
+            pre.append(("al", extra["align"]))
+        prng = random.Random(extra["perm"])
+        prng.shuffle(pre)
+        storage_o, quals_o, fs_o, align_nodes = [], [], [], []
+        for kind, x in pre:
+            if kind == "st":
+                tk.add(x); storage_o.append(x)
+            elif kind == "q":
+                tk.add(x); quals_o.append(x)
+            elif kind == "fs":
+                tk.add(x); fs_o.append(x)
+            else:
+                ai = tk.add("_Alignas")
+                tk.add("(")
+                an = self.emit_expr(x[1], tk, 3) if x[0] == "expr" else self.emit_typename(x[1], tk)
+                tk.add(")")
+                align_nodes.append(N("Alignas", [an], ai))
         bn = self.emit_base(base, tk)
+        for q in extra["post_quals"]:
+            tk.add(q); quals_o.append(q)
+        storage, quals = storage_o, quals_o
         out = []
         for j, (ders, name, init) in enumerate(decls):
             if j:
@@ -663,7 +740,7 @@ class Gen:
                 if register:
                     self.typedefs.append(name)
             else:
-                out.append(N("Decl", [S(name), strs(quals), L([]), strs(storage), L([]), ty, iv, NONE]))
+                out.append(N("Decl", [S(name), strs(quals), L(align_nodes), strs(storage), strs(fs_o), ty, iv, NONE]))
         tk.add(";")
         return out
 
@@ -699,7 +776,7 @@ class Gen:
             init = None if form == 0 else self.expr(1) if form == 1 else self.declaration(1, False, False)
             if form == 2 and self.avoid_known:
                 # known finding C07: a for-init declaration with several declarators is regenerated wrongly
-                init = (init[0], init[1], init[2], init[3], init[4][:1])
+                init = (init[0], init[1], init[2], init[3], init[4][:1]) + tuple(init[5:])
             return ("for", init, self.expr(1) if r.random() < 0.7 else None, self.expr(1) if r.random() < 0.7 else None,
                     self.stmt(depth - 1, in_switch, True))
         if k == 6:
@@ -714,6 +791,8 @@ class Gen:
             return ("switch", self.expr(1), pre, items)
         if k == 7:
             return ("label", self.fresh("L"), self.stmt(depth - 1, in_switch, in_loop))
+        if k == 10:
+            return ("switch1", self.expr(1), self.stmt(depth - 1, True, in_loop))
         if k == 8:
             return ("pragma", r.choice(["once", "omp parallel", "pack(1)", ""]))
         if k == 9:
@@ -844,6 +923,15 @@ class Gen:
                     items.append(N("Case", [e, st], li) if cls == "Case" else N("Default", [st], li))
             tk.add("}")
             return one(N("Switch", [c, N("Compound", [L(items)], bi)], i))
+        if t == "switch1":
+            i = tk.add("switch")
+            tk.add("(")
+            c = self.emit_expr(s[1], tk, 1)
+            tk.add(")")
+            b = self.sub(s[2], tk)
+            if b[1] == "Compound" and b[2][0] == NONE:
+                b = N("Compound", [L([])], b[3])      # fix_switch_cases rebuilds the body: `{}` becomes an empty list
+            return one(N("Switch", [c, b], i))
         if t == "label":
             i = tk.add(s[1])
             tk.add(":")
@@ -876,7 +964,7 @@ class Gen:
             return self.open_if(s[2])
         if t == "for":
             return self.open_if(s[4])
-        if t == "label":
+        if t in ("label", "switch1"):
             return self.open_if(s[2])
         return False
 
@@ -885,6 +973,13 @@ class Gen:
         not generated here (they are block items / documented special cases)."""
         if s[0] in ("declstmt", "pragma", "static_assert"):
             s = ("compound", [s])
+        if self.rng.random() < 0.08:
+            # pragma lines in front of a sub-statement: the parser wraps pragmas + statement in a Compound
+            prs = []
+            for _ in range(self.rng.randint(1, 2)):
+                prs += self.emit_stmt(("pragma", self.rng.choice(["omp for", "unroll", ""])), tk)
+            st = self.emit_stmt(s, tk)[0]
+            return N("Compound", [L(prs + [st])])
         r = self.emit_stmt(s, tk)
         return r[0]
 
@@ -894,7 +989,7 @@ class Gen:
         name = self.fresh("fn")
         ps = self.params(1)
         if ps[0] == "list":
-            ps = ("list", [(b, d, n if n is not None else self.fresh("p"), q) for b, d, n, q in ps[1]], ps[2])
+            ps = ("list", [(b, d, n if (n is not None or r.random() < 0.25) else self.fresh("p"), q) for b, d, n, q in ps[1]], ps[2])
         body = ("compound", [self.block_item(depth) for _ in range(r.randint(0, 4))])
         storage = [r.choice(["static", "extern"])] if r.random() < 0.2 else []
         fspec = ["inline"] if r.random() < 0.1 else []
